@@ -56,8 +56,37 @@ def Iter.collectFuel {α} : Nat → Iter α → List α → Out (List α) × Ite
     | (.err e, it') => (.err e, it')
     | (.panic, it') => (.panic, it')
 
+/-- Same drain with a reversed accumulator (linear time; `collectFuel` is the specification). -/
+def Iter.collectFast {α} : Nat → Iter α → List α → Out (List α) × Iter α
+  | 0, it, acc => (.ok acc.reverse, it)
+  | n + 1, it, acc =>
+    match it.next with
+    | (.ok (some a), it') => collectFast n it' (a :: acc)
+    | (.ok none, it') => (.ok acc.reverse, it')
+    | (.err e, it') => (.err e, it')
+    | (.panic, it') => (.panic, it')
+
+theorem Iter.collectFast_eq {α} (n : Nat) (it : Iter α) (acc : List α) :
+    Iter.collectFast n it acc = Iter.collectFuel n it acc.reverse := by
+  induction n generalizing it acc with
+  | zero => simp [Iter.collectFast, Iter.collectFuel]
+  | succ n ih =>
+    unfold Iter.collectFast Iter.collectFuel
+    generalize it.next = r
+    obtain ⟨r1, r2⟩ := r
+    cases r1 with
+    | ok o =>
+      cases o with
+      | none => rfl
+      | some a => simp only; rw [ih]; simp
+    | err e => rfl
+    | panic => rfl
+
 def Iter.collect {α} (it : Iter α) : Out (List α) × Iter α :=
-  it.collectFuel (it.data.len + 1) []
+  it.collectFast (it.data.len + 1) []
+
+theorem Iter.collect_eq {α} (it : Iter α) : it.collect = it.collectFuel (it.data.len + 1) [] := by
+  unfold Iter.collect; rw [Iter.collectFast_eq]; rfl
 
 /-- `Iterator::find`. -/
 def Iter.findFuel {α} (p : α → Bool) : Nat → Iter α → Out (Option α)
